@@ -160,11 +160,32 @@ def canon(t, subst, counter):
     return tuple(canon(x, subst, counter) if isinstance(x, tuple) else x for x in t)
 
 
+ENT_KINDS = ('FOUND', 'ATPART', 'BACK', 'AUXHEAD', 'RANDPOS', 'RAWRNG', 'FROMEND', 'FRONT', 'LV', 'VIA', 'NEW', 'TTLOF', 'POSOF', 'RES', 'RESNODE',
+             'STALE', 'MAYALIAS', 'PARAM', 'OTHER', 'PERMAT', 'AUXHEADNODE', 'AUXNODE')
+
+
+def ent_repr(kind, arg, subst, counter):
+    """canonical, numbering-independent rendering of an entity (its argument may itself be an entity key)"""
+    if kind in ('RANDPOS', 'RAWRNG') and isinstance(arg, int):
+        a = show(canon(('rng', arg), subst, counter))
+    elif kind in ('NEW', 'RES', 'RESNODE') and isinstance(arg, int):
+        a = show(canon(('res', arg), subst, counter))
+    elif isinstance(arg, tuple) and arg and isinstance(arg[0], str) and arg[0] in ENT_KINDS:
+        a = ent_repr(arg[0], arg[1] if len(arg) > 1 else None, subst, counter)
+    elif isinstance(arg, tuple) and arg and isinstance(arg[0], tuple):
+        a = tuple(ent_repr(x[0], x[1] if len(x) > 1 else None, subst, counter) if isinstance(x, tuple) and x and isinstance(x[0], str) and x[0] in ENT_KINDS else x for x in arg)
+    elif isinstance(arg, tuple):
+        a = show(canon(arg, subst, counter))
+    else:
+        a = arg
+    return (kind, str(a))
+
+
 def body_summary(b, roles, subst):
     seg = b.seg
     counter = {}
     conds = []
-    for kind, args, truth, site, raw in seg.conds:
+    for kind, args, truth, site, raw, rawtruth in seg.conds:
         if kind in ('IT_AT_BEGIN', 'IT_AT_END') or (kind == 'OTHER' and root_of(raw)[0] in ('param', 'local', 'other')):
             continue
         if kind == 'EXPIRED' and isinstance(args[0], Ent) and args[0].kind == 'LV':
@@ -188,16 +209,7 @@ def body_summary(b, roles, subst):
             if k in ('site', 'kind', 'loc'):
                 continue
             if isinstance(v, Ent):
-                arg = v.arg
-                if v.kind in ('RANDPOS', 'RAWRNG'):
-                    arg = show(canon(('rng', arg), subst, counter))
-                elif v.kind in ('NEW', 'RES', 'RESNODE'):
-                    arg = show(canon(('res', arg), subst, counter))
-                elif isinstance(arg, tuple) and arg and isinstance(arg[0], str) and arg[0] in ('RANDPOS', 'NEW'):
-                    arg = (arg[0],) + tuple('#' if isinstance(x, int) else x for x in arg[1:])
-                elif isinstance(arg, tuple):
-                    arg = show(canon(arg, subst, counter))
-                d[k] = (v.kind, arg)
+                d[k] = ent_repr(v.kind, v.arg, subst, counter)
             elif isinstance(v, tuple):
                 d[k] = show(canon(v, subst, counter))
             else:
@@ -213,7 +225,8 @@ def outcome(b, roles):
     seg = b.seg
     k = ops.kind_of(b.method)
     if b.in_loop is None:
-        return seg.ret
+        d = seg.decided(seg.ret) if isinstance(seg.ret, tuple) and seg.ret and seg.ret[0] in ('cmp', 'not', 'pred', 'hasval') else None
+        return ('bool', d) if d is not None else seg.ret
     if k == 'FIND':
         for e in seg.effects:
             if e.kind == 'OUT_CALL' and e.name in ('emplace_back', 'push_back') and len(e.args) == 2:
@@ -342,7 +355,7 @@ def check_plumbing(res, prop, cm, roles, m, top, b):
         name, incs = tally_info(b.top, b)
         effs = ops.body_effects(b, roles)
         success = (actual_class(effs) in ('BIND', 'UPDATE')) if k == 'INSERT' else bool(seg.effs('UNBIND'))
-        n = len([e for e in incs if e.how != 'decl' and isinstance(e.val, tuple) and e.val[0] == 'add' and e.val[2] == 1])
+        n = len([e for e in incs if e.how != 'decl' and ops.is_increment(e, name)])
         bad = len([e for e in incs if e.how != 'decl']) - n
         ok = name is not None and bad == 0 and n == (1 if success else 0)
         res.ob('R-SIB-PLUMB', ok=ok)
@@ -534,11 +547,9 @@ def check_lookup(res, prop, cm, roles, m, b):
     res.ob('R-LOOKUP-PROV', ok=ok)
     if not ok:
         V(res, prop, 'R-LOOKUP-PROV', cm, b.where, 'index is consulted with something other than the call\'s key', site_of_seg(seg, m), 'looked up: %s' % show(key))
-    ys = [e[1] for e in seg.events if e[0] == 'ret' and isinstance(e[1], tuple) and e[1][0] in ('ctor', 'bool')]
-    inner = [y for y in ys]
-    if not inner:
+    y = outcome(b, roles)
+    if not (isinstance(y, tuple) and y and y[0] in ('ctor', 'bool')):
         return
-    y = inner[0]
     L = seg.L
     if present is True:
         live = not (cm.name in TTL_CACHES and found_expired(seg) is True)
@@ -657,6 +668,20 @@ def check_bind_update(res, prop, cm, roles, m, b):
         V(res, prop, 'R-BIND-COHERENT', cm, b.where, why.split(' (stored')[0].split(' %')[0], bd.site, 'insert path [%s]: %s' % (val, why))
 
 
+def raw_draw_is_bound_slot(seg, ent):
+    """rr: a number drawn from uniform_int_distribution{0, size-1} used directly as element index names a bound slot when the path
+    has established size >= capacity: then size == capacity (RI) and every slot 0..capacity-1 is bound"""
+    if ent.kind != 'RAWRNG' or seg.cond('FULL') is not True:
+        return False
+    part = seg.L.part
+    for d in seg.effs('RNG_DRAW'):
+        if d.sym == ('rng', ent.arg):
+            dist = d.dist
+            return (isinstance(dist, tuple) and dist[0] == 'ctor' and len(dist) > 2 and len(dist[2]) == 2 and dist[2][0] == ('int', 0)
+                    and dist[2][1] == ('add', ld0(part), -1))
+    return False
+
+
 def check_entities(res, prop, cm, roles, m, seg):
     """R-KIND / R-UNBIND-VIA-BACKPTR: every slot the path touches is named by a sanctioned producer"""
     for e in seg.effects:
@@ -666,7 +691,7 @@ def check_entities(res, prop, cm, roles, m, seg):
                 continue
             if e.kind not in ('BIND', 'UNBIND', 'VAL', 'DEADLINE', 'STAMP', 'BACKPTR', 'AUX_ADD', 'AUX_DEL', 'MOVE', 'AUX_MOVE'):
                 continue
-            ok = ent.kind in GOOD_ENTS
+            ok = ent.kind in GOOD_ENTS or raw_draw_is_bound_slot(seg, ent)
             if e.kind == 'MOVE' and ent.kind in ('OTHER',) :
                 ok = True     # destinations / unresolved list nodes are judged by the position domain
             res.ob('R-KIND', ok=ok)
@@ -848,7 +873,8 @@ def check_free_slot(res, prop, cm, roles, m, seg):
     """R-FREE-SLOT: back-pointer fields are read only from slots known to be bound"""
     L = seg.L
     val = ' '.join(seg.valuation())
-    nonempty = seg.cond('NONEMPTY') is True or seg.cond('FULL') is True or seg.cond('PRESENT') is True or seg.cond('ATCAP') is True
+    nonempty = seg.cond('NONEMPTY') is True or seg.cond('FULL') is True or seg.cond('PRESENT') is True or seg.cond('ATCAP') is True \
+        or seg.cond('AUX_NONEMPTY') is True
     seen = set()
     written = set()
     for e in seg.events:
@@ -865,7 +891,7 @@ def check_free_slot(res, prop, cm, roles, m, seg):
         ent, f = fe
         if f not in roles.backptrs:
             continue
-        ok = ent.kind in BOUND_KINDS
+        ok = ent.kind in BOUND_KINDS or raw_draw_is_bound_slot(seg, ent)
         why = None
         if ent.kind in ('BACK',) and seg.cond('FULL') is not True and roles.part is not None:
             ok, why = False, 'back() of the slot list is a used slot only when the cache is full'
@@ -892,7 +918,7 @@ def check_free_slot(res, prop, cm, roles, m, seg):
 
 def check_victim_reads(res, prop, cm, roles, m, seg):
     """back() / begin() of a structure are read only when it is known non-empty"""
-    nonempty = seg.cond('NONEMPTY') is True or seg.cond('FULL') is True or seg.cond('PRESENT') is True
+    nonempty = seg.cond('NONEMPTY') is True or seg.cond('FULL') is True or seg.cond('PRESENT') is True or seg.cond('AUX_NONEMPTY') is True
     for e in seg.events:
         if e[0] != 'rd':
             continue
